@@ -67,7 +67,7 @@ def enc_backend_fns():
 
 
 def unit():
-    lib = Mod('cbc_lib', 'cbc/src/lib.rs', items=[Sel('fn xor', fns={'xor': K.xor_fn()})])
+    lib = Mod('cbc_lib', 'cbc/src/lib.rs', items=[Sel('fn xor', fns={'xor': K.xor_fn(props=P_REC)})])
     dec = K.std_block_mode_mod('cbc', 'dec', 'cbc/src/decrypt.rs', 'cbc_dec_step', uses='use super::cbc_lib::xor;',
                                backend_fns=dec_backend_fns(), init_fns=K.init_plain(('C09', 'C02')),
                                state_fns=K.state_plain(), props_rec=P_REC)
